@@ -42,13 +42,23 @@ def scalar(v: int, sp: int, is_str: bool = False) -> str:
 NONFINITE = {99991: float("inf"), 99993: float("-inf")}
 
 
+def _date_token(x):
+    # tokens 88801..88828 stand for the YAML dates 2024-02-01 .. 2024-02-28 (values that are not JSON types)
+    import datetime as _d
+    return _d.date(2024, 2, int(x) - 88800) if 88801 <= int(x) <= 88828 else None
+
+
 def sweep_val(x, ints: bool):
+    if _date_token(x) is not None:
+        return _date_token(x)
     if int(x) in NONFINITE:
         return NONFINITE[int(x)]
     return int(x) if ints else float(x)
 
 
 def sweep_val_text(x, ints: bool) -> str:
+    if _date_token(x) is not None:
+        return _date_token(x).isoformat()
     if int(x) in NONFINITE:
         return ".inf" if NONFINITE[int(x)] > 0 else "-.inf"
     return str(int(x)) if ints else f"{float(x):.1f}"
